@@ -34,6 +34,7 @@ ASSUMPTIONS = [
     "64-bit OP2 *matrix* blocks have no Nastran sample: encoded by analogy with 64-bit tables and 64-bit OP4",
 ]
 _DIR = None
+SHARD_TIMEOUT = 300
 
 
 def bounds(tier):
@@ -132,6 +133,12 @@ def check_op4_file(data, truth, expected, res, tag, binary):
             if not same(dense(X), expected[i]):
                 msgs.append("%s: matrix %s decoded (%s read) differs from the encoded content" % (tag, t["name"], lbl))
                 break
+        # container kind: ndarray by default, scipy sparse on request, and per matrix as stored when sparse=None
+        kinds = (sp.issparse(lm[i]), sp.issparse(lm2[i]), sp.issparse(lm3[i]))
+        want_kinds = (False, True, t.get("layout", "dense") != "dense")
+        if kinds != want_kinds:
+            msgs.append("%s: matrix %s (#%d, stored %s) comes back as %s for sparse=(False, True, None); expected %s"
+                        % (tag, t["name"], i, t.get("layout"), ["sparse" if k else "ndarray" for k in kinds], ["sparse" if k else "ndarray" for k in want_kinds]))
     # every subset of names == filtered full read
     uniq = sorted(set(names))
     for k in range(1, len(uniq) + 1):
@@ -252,41 +259,56 @@ def run_op4_case(case, tier, res):
                 dict(name="ALPHA", A=-M, form=form, mtype=mtype), dict(name="AL", A=M * 2, form=form, mtype=mtype)]  # "AL" is a prefix of "ALPHA"
         exp = [M, M.T.copy(), -M, M * 2]
         svs = string_variants(M, 5, 40 if tier != "quick" else 12) if kind != "cut" else [None]
-        for endian, bit64, layout, trailer in itertools.product(("<", ">"), (False, True), ("dense", "nonbigmat", "bigmat"), ("nastran", "pyyeti")):
+        MIXED = (("dense", "bigmat", "nonbigmat", "dense"), ("nonbigmat", "dense", "dense", "bigmat"), ("bigmat", "nonbigmat", "dense", "nonbigmat"))
+        for endian, bit64, layout, trailer in itertools.product(("<", ">"), (False, True), ("dense", "nonbigmat", "bigmat") + MIXED, ("nastran", "pyyeti")):
             if bit64 and trailer == "pyyeti":
                 continue
             for vi, sv in enumerate(svs if layout != "dense" else [None, "early"]):
+                if isinstance(layout, tuple) and vi > 0:
+                    break
                 kw = {}
                 if layout == "dense" and sv == "early":
                     kw["dense_start"] = lambda mi, j, s: max(0, s - 1)
                 elif layout != "dense":
                     kw["strings"] = sv
                 data, truth = op4_enc.encode_binary(mats, endian=endian, bit64=bit64, layout=layout, trailer=trailer, **kw)
-                tag = "op4 binary %s %dbit %s trailer=%s strings#%d mtype%d" % (endian, 64 if bit64 else 32, layout, trailer, vi, mtype)
+                lname = layout if isinstance(layout, str) else "mixed(%s)" % ",".join(layout)
+                tag = "op4 binary %s %dbit %s trailer=%s strings#%d mtype%d" % (endian, 64 if bit64 else 32, lname, trailer, vi, mtype)
                 msgs = check_op4_file(data, truth, exp, res, tag, True)
-                res.ev("op4bin/%s/%d/%s/%s/m%d/%s" % (endian, 64 if bit64 else 32, layout, trailer, mtype, "default" if vi == 0 else "split"))
+                res.ev("op4bin/%s/%d/%s/%s/m%d/%s" % (endian, 64 if bit64 else 32, lname, trailer, mtype, "default" if vi == 0 else "split"))
                 res.traces += 1
-                msgs_all += [(dict(fmt="bin", endian=endian, bit64=bit64, layout=layout, trailer=trailer, sv=vi, mtype=mtype), m) for m in msgs]
+                msgs_all += [(dict(fmt="bin", endian=endian, bit64=bit64, layout=list(layout) if isinstance(layout, tuple) else layout, trailer=trailer, sv=vi, mtype=mtype), m) for m in msgs]
         if kind == "cut":
             continue
         # (width, values per line): the maximal fill of 80 columns and announced counts below it (the reader must
         # follow the count announced in the matrix header, not the line width)
-        for dchar, (numlen, perline), onep, layout in itertools.product(("E", "D"), ((16, 5), (23, 3), (24, 3), (26, 3), (23, 2), (16, 4), (20, 3)), (True, False),
-                                                                        ("dense", "nonbigmat", "bigmat")):
+        # ... including announced formats whose lines are longer than 80 columns (4E23.16, 5E20.12, 6E16.9, 3E30.17), files whose
+        # matrices use different layouts, and files whose matrices announce different number formats
+        for dchar, (numlen, perline), onep, layout in itertools.product(("E", "D"), ((16, 5), (23, 3), (24, 3), (26, 3), (23, 2), (16, 4), (20, 3), (23, 4), (20, 5), (16, 6), (30, 3), ("p", 0)),
+                                                                        (True, False), ("dense", "nonbigmat", "bigmat") + MIXED[:2]):
+            permat = numlen == "p"
+            if permat:
+                numlen, perline = 16, 5
+            if isinstance(layout, tuple) and (numlen, perline) not in ((16, 5), (23, 4)):
+                continue
             for int16, pad in ((False, " "), (True, " "), (False, "\x00")):
                 if int16 and (dchar == "D" or not onep):
                     continue
                 digits = numlen - 7
                 b64 = False
                 mm = [dict(m, mtype=m["mtype"]) for m in mats]
+                if permat:
+                    for m_, f_ in zip(mm, ((16, 9, 5), (24, 17, 3), (16, 9, 5), (23, 16, 4))):
+                        m_["fmt"] = f_
                 txt, truth, expd = op4_enc.encode_ascii(mm, numlen, digits, perline, dchar, layout, bit64=b64, onep=onep, int16=int16, name_pad=pad)
                 if mtype in (1, 3):
                     pass
-                tag = "op4 ascii %s%d.%d x%d %s 1P=%s I16=%s pad=%r mtype%d" % (dchar, numlen, digits, perline, layout, onep, int16, pad, mtype)
+                lname = layout if isinstance(layout, str) else "mixed(%s)" % ",".join(layout)
+                tag = "op4 ascii %s%d.%d x%d%s %s 1P=%s I16=%s pad=%r mtype%d" % (dchar, numlen, digits, perline, " (format differs per matrix)" if permat else "", lname, onep, int16, pad, mtype)
                 msgs = check_op4_file(txt, truth, expd, res, tag, False)
-                res.ev("op4asc/%s/%d/%s/1P%d/I16%d/pad%d/m%d" % (dchar, numlen, layout, onep, int16, pad != " ", mtype))
+                res.ev("op4asc/%s/%d%s/%s/1P%d/I16%d/pad%d/m%d" % (dchar, numlen, "x%d" % perline if not permat else "permat", lname, onep, int16, pad != " ", mtype))
                 res.traces += 1
-                msgs_all += [(dict(fmt="asc", dchar=dchar, numlen=numlen, perline=perline, onep=onep, layout=layout, int16=int16, pad=pad, mtype=mtype), m)
+                msgs_all += [(dict(fmt="asc", dchar=dchar, numlen=numlen, perline=perline, permat=permat, onep=onep, layout=list(layout) if isinstance(layout, tuple) else layout, int16=int16, pad=pad, mtype=mtype), m)
                              for m in msgs]
     return msgs_all
 
@@ -317,6 +339,41 @@ def check_op2_file(data, truth, blocks, res, tag):
                 msgs.append("%s: trailer of %s: %s != %s" % (tag, t["name"], s.trailer, t["trailer"]))
             if blk["kind"] == "matrix" and tuple(s.size) != (blk["trailer"][2], blk["trailer"][1]):
                 msgs.append("%s: directory size of %s wrong" % (tag, t["name"]))
+        # K2 over file positions: from EVERY position of interest (file start, before / at / inside / at the end of every
+        # block, end of file) next_db_info() names the first block that starts after the position and goto_next() lands there
+        fsize = len(data)
+        posns = {0, 1, fsize}
+        for t in truth:
+            posns |= {max(t["start"] - 1, 0), t["start"], t["start"] + 1, (t["start"] + t["stop"]) // 2, t["stop"] - 1, t["stop"]}
+        for p in sorted(posns):
+            want_t = next((t for t in truth if t["start"] > p), None)
+            o.set_position(p)
+            nd = o.next_db_info()
+            res.transitions += 1
+            if (nd is None) != (want_t is None) or (nd is not None and (nd.name, nd.start) != (want_t["name"], want_t["start"])):
+                msgs.append("%s: next_db_info() at byte %d names %s, the next block after that position is %s"
+                            % (tag, p, None if nd is None else (nd.name, nd.start), None if want_t is None else (want_t["name"], want_t["start"])))
+                break
+            o.set_position(p)
+            o.goto_next()
+            pos = o._fileh.tell()
+            # "end-of-file" when there is no next block: the end of the last data block (the file's trailing end-of-data
+            # marker follows it) or the physical end of the file
+            if pos not in ((want_t["start"],) if want_t else (truth[-1]["stop"], fsize)):
+                msgs.append("%s: goto_next() from byte %d lands at %d, expected %d" % (tag, p, pos, want_t["start"] if want_t else truth[-1]["stop"]))
+                break
+        # walking the file with next_db_info()/goto_next() from the top visits every block once, in order
+        o.set_position(0)
+        walked = []
+        while len(walked) <= len(truth) + 1:
+            nd = o.next_db_info()
+            if nd is None:
+                break
+            walked.append((nd.name, nd.start))
+            o.goto_next()
+        want_walk = [(t["name"], t["start"]) for t in truth if t["start"] > 0]
+        if walked != want_walk:
+            msgs.append("%s: walking the file with next_db_info()/goto_next() from byte 0 visits %s, the blocks are %s" % (tag, walked, want_walk))
         # full reads
         with warnings.catch_warnings():
             warnings.simplefilter("ignore")
@@ -611,7 +668,7 @@ def run_shard(sh):
         elif sh["part"] == "op4":
             for case in sh["cases"]:
                 for extra, m in run_op4_case(tuple(case), tier, res):
-                    res.viol(dict(part="op4", case=list(case), tier=tier, **extra), m, kind="op4-" + extra["fmt"] + "-" + extra["layout"] + "-" + m.split(":")[1][:30])
+                    res.viol(dict(part="op4", case=list(case), tier=tier, **extra), m, kind="op4-" + extra["fmt"] + "-" + (extra["layout"] if isinstance(extra["layout"], str) else "mixed") + "-" + m.split(":")[1][:30])
             res.sample(dict(part="op4", case=list(case)))
         else:
             for extra, m in run_op2(tier, res, sh["which"]):
